@@ -341,6 +341,7 @@ func getLocalAddresses(c diam.Conn) ([]datatype.Address, error) {
 	var (
 		addr, addrStr string
 		loopback      net.IP
+		linkLocal     net.IP
 		err           error
 	)
 	if c.LocalAddr() != nil {
@@ -357,17 +358,27 @@ func getLocalAddresses(c diam.Conn) ([]datatype.Address, error) {
 	for _, ipStr := range hostIPs {
 		// IPv6 hosts are printed as [addr%zone] in front of the port.
 		ipStr = strings.TrimSuffix(strings.TrimPrefix(ipStr, "["), "]")
+		zoned := false
 		if i := strings.IndexByte(ipStr, '%'); i >= 0 {
-			ipStr = ipStr[:i]
+			ipStr, zoned = ipStr[:i], true
 		}
 		ip := net.ParseIP(ipStr)
 		if ip != nil {
 			if ip.IsLoopback() {
 				loopback = ip
+			} else if zoned {
+				// An address that is only valid on one link is of no use
+				// to the peer: like the loopback, a last resort.
+				if linkLocal == nil {
+					linkLocal = ip
+				}
 			} else {
 				addresses = append(addresses, datatype.Address(ip))
 			}
 		}
+	}
+	if len(addresses) == 0 && linkLocal != nil {
+		addresses = append(addresses, datatype.Address(linkLocal))
 	}
 	if len(addresses) == 0 && loopback != nil {
 		addresses = append(addresses, datatype.Address(loopback))
